@@ -9,6 +9,7 @@ import (
 	"os"
 	"runtime"
 	"sort"
+	"strings"
 	"testing/synctest"
 	"time"
 
@@ -93,15 +94,16 @@ type follower struct {
 	syncNext  int   // sync (instead of executing) this many next blocks
 	finalized int
 
-	floor      int64 // blocks at or above this round must be readable (max over prunes)
-	afterCrash bool  // a crash happened since the start: violations carry /after-crash
-	lastDead   map[int64]int
-	crashPrune int64 // pending: crash inside the next prune window (symbolic selector, 0 none)
-	ioerrPrune bool
-	nPrunes    int
-	nChecks    int
-	crashArmed string
-	restarts   int
+	floor       int64 // blocks at or above this round must be readable (max over prunes)
+	afterCrash  bool  // a crash happened since the start: violations carry /after-crash
+	lastDead    map[int64]int
+	lastSets    map[int64]map[string]bool
+	prunedBy    map[string]int64 // node hash -> round of the dead-node record it was pruned under (diagnostics)
+	fault       *fault27         // armed disk fault (nil none)
+	directPrune bool
+	nPrunes     int
+	nChecks     int
+	restarts    int
 
 	churnModel
 }
@@ -204,20 +206,30 @@ func (f *follower) viol(oracle, sig, detail string) {
 
 func deadRecords(d *grocksdb.Disk) map[int64]int {
 	out := map[int64]int{}
+	for rn, m := range deadRecordSets(d) {
+		out[rn] = len(m)
+	}
+	return out
+}
+
+// deadRecordSets decodes the dead-node records: round -> set of node hashes (hex).
+func deadRecordSets(d *grocksdb.Disk) map[int64]map[string]bool {
+	out := map[int64]map[string]bool{}
 	for k, v := range d.Snapshot("dead_nodes") {
 		if len(k) != 8 {
 			continue
 		}
 		rn := int64(binary.BigEndian.Uint64([]byte(k)))
 		var m map[string]map[string]bool
-		n := -1
+		set := map[string]bool{}
 		if err := msgpack.Unmarshal(v, &m); err == nil {
-			n = 0
 			for _, mm := range m {
-				n += len(mm)
+				for h := range mm {
+					set[h] = true
+				}
 			}
 		}
-		out[rn] = n
+		out[rn] = set
 	}
 	return out
 }
@@ -292,11 +304,12 @@ func pruneWrites(recs map[int64]int, v int64) []pwrite {
 // ---- follower life cycle ---------------------------------------------------------------------------
 
 func newFollower(w *ledger.World, p *sim.Plan) *follower {
-	f := &follower{w: w, tr: w.Tr, byHash: map[string]*fblk{}, count: p.CfgInt(pruneCountKey, 100), churnModel: newChurnModel()}
+	f := &follower{w: w, tr: w.Tr, byHash: map[string]*fblk{}, count: p.CfgInt(pruneCountKey, 100), churnModel: newChurnModel(), prunedBy: map[string]int64{}}
 	f.rp = w.NewReplica("fin")
 	f.startWorkers()
 	f.nextRound = 1
 	f.lastDead = deadRecords(f.rp.Disk)
+	f.lastSets = deadRecordSets(f.rp.Disk)
 	return f
 }
 
@@ -370,6 +383,7 @@ func (f *follower) deliver(fb *fblk) bool {
 			return false
 		}
 	}
+	f.watch(fmt.Sprintf("after deliver(%d)", b.Round))
 	fb.have = true
 	nb.RoundRank = 0
 	nb.SetBlockNotarized()
@@ -394,14 +408,18 @@ func (f *follower) finalizeRounds(upto int64) {
 			continue
 		}
 		before := c.GetLatestFinalizedBlock().Round
+		f.watch(fmt.Sprintf("before FinalizeRound(%d)", f.nextRound))
 		c.FinalizeRound(r)
 		synctest.Wait()
+		f.watch(fmt.Sprintf("after FinalizeRound(%d)", f.nextRound))
 		after := c.GetLatestFinalizedBlock().Round
 		if after != before {
 			f.tr.Event("c27 finalize-round %d lfb %d -> %d", f.nextRound, before, after)
 		}
 		f.afterDisk("finalize")
 	}
+	// new dead-node records were written: refresh the picture before bubble time can pass again
+	f.observe(-1)
 }
 
 // afterDisk notices a crash of the follower's disk.
@@ -411,10 +429,8 @@ func (f *follower) afterDisk(where string) {
 	}
 	f.dead = true
 	f.afterCrash = true
-	// where did it hit?
-	f.tr.Fault("crash/" + where)
-	f.tr.Event("c27 CRASH in %s (armed: %s)", where, f.crashArmed)
-	f.crashArmed = ""
+	f.tr.Event("c27 CRASH noticed after %s", where)
+	f.fault = nil
 	f.cancel()
 	synctest.Wait()
 }
@@ -426,14 +442,22 @@ func (f *follower) observe(defBefore int) {
 	if f.lost {
 		return
 	}
-	now := deadRecords(f.rp.Disk)
+	nowSets := deadRecordSets(f.rp.Disk)
+	now := map[int64]int{}
+	for r, m := range nowSets {
+		now[r] = len(m)
+	}
 	var removed []int64
 	for r := range f.lastDead {
 		if _, ok := now[r]; !ok {
 			removed = append(removed, r)
+			for h := range f.lastSets[r] {
+				f.prunedBy[h] = r
+			}
 		}
 	}
 	f.lastDead = now
+	f.lastSets = nowSets
 	if len(removed) == 0 {
 		return
 	}
@@ -452,8 +476,12 @@ func (f *follower) observe(defBefore int) {
 	if defBefore >= 0 {
 		deleted = defBefore - f.rp.Disk.Len("default")
 	}
-	f.tr.Probe("prune-executed/" + bucketN(deleted))
-	f.tr.Fault("prune")
+	src := "worker"
+	if f.directPrune {
+		src = "direct"
+	}
+	f.tr.Probe("prune-executed/" + src + "/" + bucketN(deleted))
+	f.tr.Fault("prune/" + src)
 	f.tr.Event("c27 PRUNE removed-records=%d..%d (%d) lfb=%d count=%d deleted-nodes=%d floor=%d", removed[0], maxRemoved, len(removed), lfb, f.count, deleted, f.floor)
 	if !f.dead {
 		f.check(f.rp.C.GetStateDB(), "after-prune")
@@ -492,7 +520,7 @@ func (f *follower) check(ndb util.NodeDB, when string) {
 		got, err := ledger.Leaves(ndb, fb.b.ClientStateHash)
 		if err != nil {
 			f.viol("retained-state", "C27/retained-block-unreadable-after-prune"+suffix,
-				fmt.Sprintf("%s: block %d (retained: >= %d, prune_below_count %d, lfb %d) cannot be read from the persistent node DB: %v", when, fb.b.Round, f.floor, f.count, f.rp.C.GetLatestFinalizedBlock().Round, err))
+				fmt.Sprintf("%s: block %d (retained: >= %d, prune_below_count %d, lfb %d) cannot be read from the persistent node DB: %v%s", when, fb.b.Round, f.floor, f.count, f.rp.C.GetLatestFinalizedBlock().Round, err, f.whoPruned(err)))
 			return
 		}
 		if d := diffLeaves(fb.want, got); d != "" {
@@ -508,6 +536,24 @@ func (f *follower) check(ndb util.NodeDB, when string) {
 	}
 }
 
+// whoPruned finds the dead-node record a missing node was listed in (diagnostics).
+func (f *follower) whoPruned(err error) string {
+	msg := err.Error()
+	for h, r := range f.prunedBy {
+		if len(h) >= 16 && strings.Contains(msg, h) {
+			return fmt.Sprintf("; the node was listed in the dead-node record of round %d", r)
+		}
+	}
+	for r, set := range f.lastSets {
+		for h := range set {
+			if len(h) >= 16 && strings.Contains(msg, h) {
+				return fmt.Sprintf("; the node is listed in the (still present) dead-node record of round %d", r)
+			}
+		}
+	}
+	return "; the node was in no dead-node record the harness saw"
+}
+
 // restart rebuilds the follower from its disk alone.
 func (f *follower) restart(why string) {
 	defer timeSect("restart(incl)")()
@@ -519,6 +565,9 @@ func (f *follower) restart(why string) {
 	synctest.Wait()
 	wasDead := f.dead
 	rp.Disk.Recover()
+	if f.fault != nil {
+		f.arm(f.fault) // an armed fault that has not fired yet stays armed across a voluntary restart
+	}
 	// which block does the node come back at? what the shipped code recorded as LFB in the state DB
 	head := rp.Genesis
 	var headB *block.Block
@@ -561,6 +610,7 @@ func (f *follower) restart(why string) {
 	f.startWorkers()
 	f.tr.Event("c27 RESTART (%s) at round=%d root=%x", why, head.Round, short(head.ClientStateHash))
 	f.lastDead = deadRecords(rp.Disk)
+	f.lastSets = deadRecordSets(rp.Disk)
 	// everything retained must be readable right after the restart
 	f.check(c.GetStateDB(), "after-restart")
 	// catch up
@@ -594,74 +644,131 @@ func (f *follower) tick(secs int64) {
 		return
 	}
 	d := f.rp.Disk
-	if f.crashPrune != 0 {
-		if v, ok := predictPruneVersion(f.rp.C); ok {
-			ws := pruneWrites(deadRecords(d), v)
-			if len(ws) > 1 || (len(ws) == 1 && ws[0].kind != "dead-record-delete") {
-				i := int(f.crashPrune % int64(len(ws)))
-				for !ws[i].safe {
-					i++
-				}
-				if f.ioerrPrune {
-					f.armIOErr(uint64(i+1), "prune/"+ws[i].kind)
-				} else {
-					d.CrashAtWrite(uint64(i + 1))
-					f.crashArmed = "prune/" + ws[i].kind
-				}
-				f.crashPrune = 0
-			}
-		}
-	}
+	f.observe(-1)
+	f.pruneWindow(func() (int64, bool) { return predictPruneVersion(f.rp.C) })
 	def := d.Len("default")
+	f.watch("before tick")
 	time.Sleep(time.Duration(secs) * time.Second)
 	synctest.Wait()
+	f.watch("after tick")
 	f.w.Now = common.Timestamp(time.Now().Unix())
 	f.tr.SimTime += float64(secs)
 	if d.Crashed() {
-		where := "prune"
-		if f.crashArmed != "" {
-			where = f.crashArmed
-		}
-		f.afterDisk(where)
+		f.afterDisk("tick")
 		// a prune may have been cut short (nodes deleted, records still there): the version it ran
 		// at is not observable; what configuration promises is that nothing from LFB - count on is touched
 		if lo := f.rp.C.GetLatestFinalizedBlock().Round - f.count; lo > f.floor {
 			f.floor = lo
 		}
-		f.observe(def)
-		return
 	}
-	if f.crashArmed != "" && len(f.crashArmed) > 5 && f.crashArmed[:5] == "prune" {
-		// the predicted prune did not happen in this window: disarm
-		d.CrashAtWrite(0)
-		f.crashArmed = ""
-	}
-	d.SetFault(nil)
 	f.observe(def)
 }
 
-// armIOErr makes the k-th write from now fail once with an I/O error (no crash).
-func (f *follower) armIOErr(k uint64, label string) {
+// ---- disk faults -----------------------------------------------------------------------------------
+
+// The write sites of the finalise / prune path, recognised on the stack of the
+// goroutine that issues the write.
+var sites27 = []string{"SaveChanges", "RecordDeadNodes", "StoreLFBRound", "MultiDeleteNode", "multiDeleteDeadNodes"}
+
+type fault27 struct {
+	site    string
+	nth     int  // fire at the nth write from that site (for MultiDeleteNode: nth batch of one prune)
+	ioerr   bool // return an I/O error once instead of crashing
+	seen    int
+	allowed map[int]bool // MultiDeleteNode only: batches of the coming prune at which a failure is safe
+	last    int          // MultiDeleteNode only: number of batches predicted
+}
+
+func writeSite() string {
+	var pcs [48]uintptr
+	n := runtime.Callers(3, pcs[:])
+	frames := runtime.CallersFrames(pcs[:n])
+	site := ""
+	for {
+		fr, more := frames.Next()
+		fn := fr.Function
+		switch {
+		case strings.HasSuffix(fn, ".multiDeleteDeadNodes"):
+			return "multiDeleteDeadNodes"
+		case strings.HasSuffix(fn, ".MultiDeleteNode"):
+			return "MultiDeleteNode"
+		case strings.HasSuffix(fn, ".RecordDeadNodes"):
+			return "RecordDeadNodes"
+		case strings.HasSuffix(fn, ".StoreLFBRound"):
+			return "StoreLFBRound"
+		case strings.HasSuffix(fn, ".MultiPutNode"):
+			site = "SaveChanges"
+		}
+		if !more {
+			break
+		}
+	}
+	return site
+}
+
+// arm installs the fault callback on the follower's disk.
+func (f *follower) arm(ft *fault27) {
+	f.fault = ft
 	d := f.rp.Disk
-	var n uint64
-	fired := false
 	d.SetFault(func(_ *grocksdb.Disk, op string, _ uint64) error {
 		switch op {
 		case "put", "delete", "write", "commit":
 		default:
 			return nil
 		}
-		if fired {
+		if f.fault != ft || writeSite() != ft.site {
 			return nil
 		}
-		n++
-		if n == k {
-			fired = true
-			f.tr.Fault("io-error/" + label)
+		ft.seen++
+		if ft.site == "MultiDeleteNode" {
+			// only where a failing batch cannot leave PruneBelowVersion's iterator goroutine blocked for ever
+			want := ft.nth
+			if want > ft.last {
+				want = ft.last
+			}
+			for want < ft.last && !ft.allowed[want] {
+				want++
+			}
+			if ft.seen != want || !ft.allowed[ft.seen] {
+				return nil
+			}
+		} else if ft.seen != ft.nth {
+			return nil
+		}
+		f.fault = nil
+		if ft.ioerr {
+			f.tr.Fault("io-error/" + ft.site)
+			f.tr.Event("c27 IO-ERROR at write #%d of %s", ft.seen, ft.site)
 			return grocksdb.ErrInjected
 		}
-		return nil
+		f.tr.Fault("crash/" + ft.site)
+		f.tr.Event("c27 CRASH at write #%d of %s", ft.seen, ft.site)
+		f.afterCrash = true
+		d.Crash()
+		return grocksdb.ErrCrashed
 	})
+}
+
+// pruneWindow prepares an armed MultiDeleteNode fault for the prune that is about to run.
+func (f *follower) pruneWindow(version func() (int64, bool)) {
+	ft := f.fault
+	if ft == nil || ft.site != "MultiDeleteNode" {
+		return
+	}
+	ft.seen, ft.allowed, ft.last = 0, map[int]bool{}, 0
+	v, ok := version()
+	if !ok {
+		return
+	}
+	for _, w := range pruneWrites(deadRecords(f.rp.Disk), v) {
+		if w.kind == "dead-record-delete" {
+			continue
+		}
+		ft.last++
+		if w.safe {
+			ft.allowed[ft.last] = true
+		}
+	}
 }
 
 // ---- observer --------------------------------------------------------------------------------------
@@ -756,12 +863,15 @@ func gen27(sc ledger.Scenario) func(seed uint64, tier string) *sim.Plan {
 				out = append(out, sim.Step{Op: "c27.sync", I: []int64{int64(nt.Range(1, 3))}})
 			}
 			if dk.Intn(100) < map[bool]int{true: 4, false: 9}[long] {
-				where := dk.Pick([]int{3, 3, 1})
-				out = append(out, sim.Step{Op: "c27.crash", I: []int64{int64(where), int64(dk.Range(1, 9))}})
-				if where != 0 {
+				site := dk.Pick([]int{3, 3, 2, 4, 4}) // SaveChanges, RecordDeadNodes, StoreLFBRound, MultiDeleteNode, multiDeleteDeadNodes
+				ioerr := dk.Pick([]int{3, 1})
+				out = append(out, sim.Step{Op: "c27.crash", I: []int64{int64(site), int64(dk.Intn(4)), int64(ioerr)}})
+				if site >= 3 {
 					out = append(out, sim.Step{Op: "c27.tick", I: []int64{8}})
 				}
-				restartIn = dk.Range(0, 4)
+				if ioerr == 0 {
+					restartIn = dk.Range(0, 4)
+				}
 			}
 			if restartIn == 0 || dk.Intn(100) < map[bool]int{true: 2, false: 6}[long] {
 				out = append(out, sim.Step{Op: "c27.restart"})
@@ -806,7 +916,7 @@ func gen27(sc ledger.Scenario) func(seed uint64, tier string) *sim.Plan {
 				}
 			}
 			if pl.Intn(100) < 10 {
-				out = append(out, sim.Step{Op: "clock", I: []int64{int64(pl.Pick([]int{3, 2, 1})*0 + []int{1, 10, 40}[pl.Pick([]int{3, 2, 1})])}})
+				out = append(out, sim.Step{Op: "c27.clock", I: []int64{int64(pl.Pick([]int{3, 2, 1})*0 + []int{1, 10, 40}[pl.Pick([]int{3, 2, 1})])}})
 			}
 			out = append(out, sim.Step{Op: "block", I: []int64{int64(pl.Intn(8)), 0}})
 		}
@@ -823,6 +933,13 @@ func setup27(w *ledger.World, r *ledger.Runner) []ledger.Observer {
 	f := newFollower(w, r.Plan)
 	tr := w.Tr
 	r.Ops["c27.churn"] = churnOpHandler(w, &f.churnModel)
+	r.Ops["c27.clock"] = func(r *ledger.Runner, st sim.Step) {
+		// the base clock op plus quiescence: a prune-worker timer may fire during the sleep, and the
+		// next step must not start before that prune has run to completion
+		w.Advance(1 + st.Int(0, 1)%600)
+		synctest.Wait()
+		f.observe(-1)
+	}
 	r.Ops["c27.hold"] = func(r *ledger.Runner, st sim.Step) { f.hold = int(st.Int(0, 1)) % 12 }
 	r.Ops["c27.sync"] = func(r *ledger.Runner, st sim.Step) { f.syncNext = int(st.Int(0, 1)) % 6 }
 	r.Ops["c27.tick"] = func(r *ledger.Runner, st sim.Step) {
@@ -834,16 +951,10 @@ func setup27(w *ledger.World, r *ledger.Runner) []ledger.Observer {
 		if f.lost || f.dead {
 			return
 		}
-		k := uint64(1 + st.Int(1, 1)%9)
-		switch st.Int(0, 0) % 3 {
-		case 0:
-			// the k-th write from now: lands in SaveChanges, RecordDeadNodes or StoreLFBRound of an upcoming finalisation
-			f.rp.Disk.CrashAtWrite(k)
-			f.crashArmed = fmt.Sprintf("finalize-write-%d", (k-1)%3)
-		case 1:
-			f.crashPrune, f.ioerrPrune = int64(k), false
-		default:
-			f.crashPrune, f.ioerrPrune = int64(k), true
+		site := sites27[int(st.Int(0, 0))%len(sites27)]
+		f.arm(&fault27{site: site, nth: 1 + int(st.Int(1, 0))%4, ioerr: st.Int(2, 0) != 0})
+		if site == "multiDeleteDeadNodes" {
+			f.fault.nth = 1
 		}
 	}
 	r.Ops["c27.restart"] = func(r *ledger.Runner, st sim.Step) {
@@ -864,6 +975,7 @@ func setup27(w *ledger.World, r *ledger.Runner) []ledger.Observer {
 		}
 		v := 1 + st.Int(0, 0)%lfb
 		def := f.rp.Disk.Len("default")
+		f.pruneWindow(func() (int64, bool) { return v, true })
 		err := f.rp.C.GetStateDB().PruneBelowVersion(util.WithPruneStats(f.ctx), v)
 		synctest.Wait()
 		tr.Event("c27 direct PruneBelowVersion(%d) lfb=%d err=%v", v, lfb, err != nil)
@@ -872,7 +984,9 @@ func setup27(w *ledger.World, r *ledger.Runner) []ledger.Observer {
 			f.floor = v
 		}
 		f.afterDisk("direct-prune")
+		f.directPrune = true
 		f.observe(def)
+		f.directPrune = false
 		if !f.dead {
 			f.check(f.rp.C.GetStateDB(), "after-direct-prune")
 		}
